@@ -228,23 +228,33 @@ func NewMatchField[Int constraints.Integer | *big.Int | ~[]byte, Mask constraint
 		return nil, err
 	}
 	value := conv(data)
+	if value == nil || value.Sign() < 0 {
+		return nil, fmt.Errorf("invalid data: negative or nil")
+	}
 	length := field.Length
 	if len(mask) > 0 {
 		var maskInt *big.Int
 		length /= 2
+		fieldBits := uint(length) * 8
+		start, width := uint(mask[0]), uint(value.BitLen())
+		if len(mask) > 1 {
+			width = uint(mask[1])
+		}
+		if mask[0] < 0 || (len(mask) > 1 && mask[1] < 0) || start > fieldBits || width > fieldBits-start {
+			return nil, fmt.Errorf("invalid mask range: start %d, length %d in a field of %d bits", mask[0], width, fieldBits)
+		}
 		if len(mask) != 3 || mask[2] == 1 {
-			value = value.Lsh(value, uint(mask[0]))
+			value = new(big.Int).Lsh(value, start)
 		}
-		if len(mask) == 1 {
-			maskInt = rangeMask(uint(mask[0]), uint(value.BitLen()))
-		} else {
-			maskInt = rangeMask(uint(mask[0]), uint(mask[1]))
-		}
+		maskInt = rangeMask(start, width)
 		maskValue := new(big.Int).And(value, maskInt)
 		if value.Cmp(maskValue) != 0 {
 			return nil, fmt.Errorf("invalid mask and data")
 		}
 		field.Mask = big2byte(maskInt, length)
+	}
+	if value.BitLen() > int(length)*8 {
+		return nil, fmt.Errorf("data does not fit in a field of %d bytes", length)
 	}
 	field.Value = big2byte(value, length)
 	return field, nil
